@@ -582,6 +582,7 @@ pub fn replay_hist(v: &serde_json::Value) -> i32 {
         println!("NON-DETERMINISTIC replay: two executions differ");
         return 2;
     }
+    println!("--- stand-alone test reproducing this history (public API only) ---\n{}", rust_test_for(&sc, &h, &rs));
     match v1 {
         Some(e) => {
             println!("replay: VIOLATION [{}] {}", e.clause, e.why);
@@ -724,4 +725,51 @@ pub fn c09(tier: Tier) -> i32 {
         plain_every: 1,
         clauses: None,
     }, Some(builtin))
+}
+
+/// A self-contained Rust test (public API only) that replays a history without the explorer.
+pub fn rust_test_for(sc: &Scenario, h: &[Op], rs: &RefStream) -> String {
+    let m = sc.env.format.name();
+    let mut t = String::new();
+    t += "// paste into tests/replay.rs of seq_io\n";
+    t += "use std::io::{self, Read, Seek, SeekFrom};\n";
+    t += &format!("use seq_io::{}::{{Reader, RecordSet, Position}};\nuse seq_io::policy::BufPolicy;\n\n", m);
+    t += "struct Src { data: Vec<u8>, pos: usize, chunk: usize, calls: usize, fail_at: Option<usize> }\n";
+    t += "impl Src { fn tick(&mut self) -> io::Result<()> { let c = self.calls; self.calls += 1; if self.fail_at == Some(c) { self.fail_at = None; return Err(io::Error::new(io::ErrorKind::Other, \"injected\")); } Ok(()) } }\n";
+    t += "impl Read for Src { fn read(&mut self, b: &mut [u8]) -> io::Result<usize> { self.tick()?; let n = b.len().min(self.chunk).min(self.data.len().saturating_sub(self.pos)); b[..n].copy_from_slice(&self.data[self.pos..self.pos + n]); self.pos += n; Ok(n) } }\n";
+    t += "impl Seek for Src { fn seek(&mut self, p: SeekFrom) -> io::Result<u64> { self.tick()?; if let SeekFrom::Start(p) = p { self.pos = p as usize; } Ok(self.pos as u64) } }\n";
+    t += "struct Pol(u8, usize);\nimpl BufPolicy for Pol { fn grow_to(&mut self, cur: usize) -> Option<usize> { match self.0 { 0 => Some(cur * 2), 1 => Some(cur + 1), 2 => if cur * 2 > self.1 { None } else { Some(cur * 2) }, _ => if cur + 1 > self.1 { None } else { Some(cur + 1) } } } }\n\n";
+    let chunk = match sc.env.chunk {
+        Chunk::All => "usize::MAX".to_string(),
+        Chunk::Fixed(n) => n.to_string(),
+        _ => "1 /* see scenario */".to_string(),
+    };
+    let pol = match sc.env.policy {
+        PolKind::Plus1 => "Pol(1, 0)".to_string(),
+        PolKind::RefuseAbove(m) => format!("Pol(2, {})", m),
+        PolKind::Plus1RefuseAbove(m) => format!("Pol(3, {})", m),
+        _ => "Pol(0, 0)".to_string(),
+    };
+    t += "#[test]\nfn replay() {\n";
+    t += &format!("    let data: Vec<u8> = vec!{:?}; // {:?}\n", sc.data, esc(&sc.data));
+    t += &format!("    let src = Src {{ data, pos: 0, chunk: {}, calls: 0, fail_at: {:?} }};\n", chunk, sc.env.fault.map(|f| f.at));
+    t += &format!("    let mut r = Reader::with_capacity(src, {}).set_policy({});\n", sc.env.cap, pol);
+    t += "    let (mut a, mut b) = (RecordSet::default(), RecordSet::default());\n    let _ = (&mut a, &mut b);\n";
+    for op in h {
+        match op {
+            Op::N => t += "    println!(\"{:?}\", r.next().map(|x| x.map(|rec| rec.to_owned_record())));\n",
+            Op::O => t += "    println!(\"{:?}\", r.records().next());\n",
+            Op::SA => t += "    println!(\"{:?} len {}\", r.read_record_set(&mut a), a.len()); for rec in &a { println!(\"  {:?}\", rec.to_owned_record()); }\n",
+            Op::SB => t += "    println!(\"{:?} len {}\", r.read_record_set(&mut b), b.len()); for rec in &b { println!(\"  {:?}\", rec.to_owned_record()); }\n",
+            Op::E(n) => t += &format!("    println!(\"{{:?}} len {{}}\", r.read_record_set_exact(&mut a, Some({})), a.len()); for rec in &a {{ println!(\"  {{:?}}\", rec.to_owned_record()); }}\n", n),
+            Op::K(i) => {
+                let (l, b) = if (*i as usize) < rs.recs.len() { (rs.recs[*i as usize].line, rs.recs[*i as usize].byte) } else { rs.err.as_ref().map_or((0, 0), |e| (e.line, e.byte)) };
+                t += &format!("    println!(\"{{:?}}\", r.seek(&Position::new({}, {})));\n", l, b);
+            }
+            Op::P => t += &format!("    let mut r = r.set_policy({});\n", pol),
+            Op::PStd => t += "    let mut r = r.set_policy(Pol(0, 0));\n",
+        }
+    }
+    t += "}\n";
+    t
 }
